@@ -272,6 +272,114 @@ def run(facts, rep, ctx):
     assembly(facts, rep, R4)
     R5 = rep.rule("R20.5", "TPL payload sizes: GX block dimensions, size = align(h,bh)*align(w,bw)*bytes/pixel, same axis order when re-linearised", floor=15)
     tpl_sizes(facts, rep, R5)
+    payload_len_rule(facts, rep, R3)
+    tpl_pipeline_rule(facts, rep, R5)
+
+
+def payload_len_rule(facts, rep, R3):
+    """The buffer a texture payload is read into with read_exact has the record's own size: capping it by what is
+    left of the file turns a truncated payload from an I/O error into a short buffer handed to the decoder."""
+    for fn in ("mila::ctpk::read", "mila::bch::read", "mila::cgfx::parse_textures", "mila::cgfx::read"):
+        b = facts.body(fn)
+        if b is None:
+            continue
+        for bb, t in b.calls():
+            nm = callee_names(t)[1] or ""
+            if not nm.endswith("Read>::read_exact") or len(t["args"]) < 2:
+                continue
+            buf = b.term_of_operand(t["args"][1])
+            sizes = [x[2][1] for x in walk(buf) if x[0] == "call" and x[1].endswith("vec::from_elem") and len(x[2]) == 2]
+            sizes += [x[2][1] for x in walk(buf) if x[0] == "call" and x[1].endswith("::resize") and len(x[2]) >= 2]
+            if not sizes:
+                continue
+            sz = sizes[0]
+            caps = [x[1].rsplit("::", 1)[-1] for x in walk(sz) if x[0] == "call" and x[1].rsplit("::", 1)[-1] in ("min", "clamp", "saturating_sub", "checked_sub") and
+                    any(y[0] == "call" and y[1].rsplit("::", 1)[-1] in ("len", "position", "stream_position") or y[0] == "param" for y in walk(x))]
+            recs = [f for f, a in value_fields(sz, "mila::")]
+            where = "%s:%s" % (b.file, t["line"])
+            if caps:
+                rep.violation(R3, fn, "payload-capped", "%s reads the payload into a buffer whose length is capped by the bytes left in the file (%s): a payload cut short is no longer reported by read_exact" % (fn, caps[0]), where)
+            elif recs or any(x[0] == "call" and "ReadBytesExt::read_" in x[1] for x in walk(sz)):
+                rep.ok(R3, {"fn": fn, "payload_len_from": sorted(set(recs)) or "header words read from the stream"})
+            else:
+                rep.inconc(R3, "%s: where the payload buffer's length comes from was not recognised" % fn)
+
+
+def tpl_pipeline_rule(facts, rep, R5):
+    """TPL: block_to_sequential gets the block-aligned width and height; what is decoded is always crop's result."""
+    ex = facts.body("mila::tpl::Tpl::extract_textures")
+    if ex is None:
+        return
+    where = "%s:%s" % (ex.file, ex.line)
+
+    def aligned_of(t):
+        """('width'|'height'|None, block component) when t is align(<that dimension>, <block dims component>)"""
+        z = strip_refs(t)
+        while z[0] == "cast":
+            z = strip_refs(z[1])
+        if z[0] == "call" and z[1].endswith("texture_utils::align") and len(z[2]) == 2:
+            dims = set(f for f, a in value_fields(z[2][0], "mila::tpl::Tpl") if f in ("width", "height"))
+            c = strip_refs(z[2][1])
+            while c[0] == "cast":
+                c = strip_refs(c[1])
+            comp = c[3] if (c[0] == "field" and isinstance(c[3], int) and strip_refs(c[1])[0] == "call" and strip_refs(c[1])[1].endswith("block_dimensions")) else None
+            if len(dims) == 1:
+                return (list(dims)[0], comp)
+            return (None, comp)
+        dims = set(f for f, a in value_fields(z, "mila::tpl::Tpl") if f in ("width", "height"))
+        if len(dims) == 1 and not any(x[0] == "call" and x[1].endswith("align") for x in walk(z)):
+            return ("raw:" + list(dims)[0], None)
+        return (None, None)
+    for bb, t in ex.calls():
+        nm = callee_names(t)[1] or ""
+        if nm.endswith("texture_utils::block_to_sequential") and len(t["args"]) >= 5:
+            aw = aligned_of(ex.term_of_operand(t["args"][1]))
+            ah = aligned_of(ex.term_of_operand(t["args"][2]))
+            for what, got, dim, comp in (("width", aw, "width", 0), ("height", ah, "height", 1)):
+                if got == (dim, comp):
+                    rep.ok(R5, {"fn": ex.name, "block_to_sequential_" + what: "align(%s, block.%d)" % (dim, comp)})
+                elif got[0] is not None and str(got[0]).startswith("raw:"):
+                    rep.violation(R5, ex.name, "unaligned-" + what, "block_to_sequential receives the image's own %s where the block-aligned %s is specified: the blocks of a partial last block row/column are dropped" % (got[0][4:], what), where)
+                elif got[0] is None:
+                    rep.inconc(R5, "block_to_sequential: the %s argument was not recognised" % what)
+                else:
+                    rep.violation(R5, ex.name, "aligned-" + what, "block_to_sequential receives align(%s, block.%s) as its %s" % (got[0], got[1], what), where)
+        if nm.endswith("decode_indexed") and t["args"]:
+            # the indices handed to the palette decoder: every definition must be crop's result
+            a = t["args"][1] if len(t["args"]) > 1 else t["args"][0]
+            terms = [ex.term_of_operand(a)]
+            seen = set()
+            bypass = None
+            n_crop = 0
+            while terms:
+                z = strip_refs(terms.pop())
+                if z[0] == "call" and z[1].endswith("texture_utils::crop"):
+                    n_crop += 1
+                    continue
+                if z[0] == "call" and z[1].rsplit("::", 1)[-1] in ("deref", "as_slice", "as_ref", "borrow", "clone", "to_vec", "into") and z[2]:
+                    terms.append(z[2][0])
+                    continue
+                if z[0] == "var" and z[1] not in seen:
+                    seen.add(z[1])
+                    for (bi2, si2, kind, payload) in ex.defs().get(z[1], []):
+                        terms.append(ex.term_of_rvalue(payload["rv"]) if kind == "assign" else ex.term_of_call(payload, bi2))
+                    continue
+                if z[0] in ("field", "downcast") :
+                    terms.append(z[1])
+                    continue
+                if z[0] == "call" and z[1].endswith("Try>::branch") and z[2]:
+                    terms.append(z[2][0])
+                    continue
+                if z[0] == "call" and z[1].endswith("block_to_sequential"):
+                    bypass = "the output of block_to_sequential"
+                else:
+                    bypass = bypass or ("?" + fmt(z)[:40])
+            if bypass and not bypass.startswith("?"):
+                rep.violation(R5, ex.name, "crop-bypassed", "decode_indexed can receive %s without it having gone through crop: the padding rows / columns added by block alignment are decoded as pixels" % bypass, where)
+            elif bypass:
+                rep.inconc(R5, "decode_indexed: the origin of its input was not recognised (%s)" % bypass[1:])
+            elif n_crop:
+                rep.ok(R5, {"fn": ex.name, "decode_indexed_input": "crop(..) on every path"})
 
 
 def tpl_layout(facts, rep, R1):
